@@ -599,7 +599,122 @@ def rule_inplace_accumulators(model):
     return r
 
 
-RULES = [rule_inplace_accumulators, rule_memo_immutable, rule_hidden_state, rule_recook, rule_getstate, rule_file,
+def _only_if_absent(model, fi, asg, attr):
+    """Is the store `self.<attr> = ...` executed only when the attribute is
+    not there yet (a memo filled on first use)?"""
+    from ..model import ancestors
+    prev = asg
+    for a in ancestors(asg):
+        if isinstance(a, ast.ExceptHandler) and a.type is not None and \
+                'AttributeError' in norm(a.type):
+            tr = getattr(a, '_dt_parent', None)
+            if isinstance(tr, ast.Try) and any(
+                    isinstance(x, ast.Attribute) and x.attr == attr
+                    for s_ in tr.body for x in ast.walk(s_)):
+                return True
+        if isinstance(a, ast.If):
+            t = norm(a.test)
+            in_body = any(prev is x for x in a.body)
+            neg = (f"not hasattr(self, '{attr}')" in t or
+                   f"getattr(self, '{attr}', None) is None" in t or
+                   f'self.{attr} is None' in t or
+                   f'not self.{attr}' in t)
+            pos = (t.startswith(f"hasattr(self, '{attr}')") or
+                   f'self.{attr} is not None' in t)
+            if (neg and in_body) or (pos and not in_body):
+                return True
+        if isinstance(a, (ast.FunctionDef, ast.AsyncFunctionDef)):
+            break
+        prev = a
+    return False
+
+
+def rule_memo_reset(model):
+    r = RuleResult('C17.R11', 'whatever a template object remembers about '
+                   'its own source on first use (an attribute filled only '
+                   'when it is absent) is forgotten or recomputed when the '
+                   'source is compiled again: cook() / munge() assign or '
+                   'delete it -- otherwise an edited template keeps a fact '
+                   'about the text it had before')
+    S = model.cls('DT_String', 'String')
+    tmpl = [c for c in model.all_classes() if S in model.mro(c)]
+    resets = set()
+    for c in tmpl:
+        for mname in ('cook', 'munge', '__setstate__'):
+            m = c.methods.get(mname)
+            if m is None:
+                continue
+            for g in model.closure(m):
+                for x in own_nodes(g.node):
+                    tg = []
+                    if isinstance(x, ast.Assign):
+                        tg = x.targets
+                    elif isinstance(x, ast.Delete):
+                        tg = x.targets
+                    elif isinstance(x, ast.Call) and norm(x.func) in (
+                            'delattr', 'setattr') and len(x.args) >= 2 and \
+                            isinstance(x.args[1], ast.Constant):
+                        resets.add(x.args[1].value)
+                    for t in tg:
+                        for y in ast.walk(t):
+                            if isinstance(y, ast.Attribute) and isinstance(
+                                    y.value, ast.Name) and \
+                                    y.value.id == 'self' and not (
+                                    isinstance(x, ast.Assign) and
+                                    _only_if_absent(model, g, x, y.attr)):
+                                resets.add(y.attr)
+    n = 0
+    for c in tmpl:
+        for fi in c.methods.values():
+            if fi.name in ('__init__',):
+                continue
+            for x in own_nodes(fi.node):
+                if not isinstance(x, ast.Assign):
+                    continue
+                for t in x.targets:
+                    if isinstance(t, ast.Attribute) and isinstance(
+                            t.value, ast.Name) and t.value.id == 'self' and \
+                            _only_if_absent(model, fi, x, t.attr):
+                        n += 1
+                        ok = t.attr in resets
+                        r.instance(fi.where, x, 'reset by cook/munge' if ok
+                                   else 'NEVER RESET')
+                        if not ok:
+                            r.finding(fi.where, x, f'{t.attr} is filled on '
+                                      'first use and never reset: after '
+                                      'munge() / manage_edit() the template '
+                                      'is compiled with what was remembered '
+                                      'about the OLD source, a template '
+                                      'built from the new source is not',
+                                      node=x, ctx=fi)
+    r.control('control: cook() assigns the compiled blocks',
+              '_v_blocks' in resets)
+    # the pinned tree has no such memo: a synthetic one must be recognised
+    from ..model import set_parents
+    ctl = ast.parse(
+        'def tagre(self):\n'
+        '    try:\n'
+        '        e = self._v_e\n'
+        '    except AttributeError:\n'
+        '        e = self._v_e = 1\n'
+        '    if not hasattr(self, "_v_f"):\n'
+        '        self._v_f = 2\n'
+        '    self._v_g = 3\n')
+    set_parents(ctl)
+    got = {t.attr: _only_if_absent(model, None, x, t.attr)
+           for x in ast.walk(ctl) if isinstance(x, ast.Assign)
+           for t in x.targets if isinstance(t, ast.Attribute)}
+    r.control('control: memo idioms recognised on a synthetic method',
+              got == {'_v_e': True, '_v_f': True, '_v_g': False})
+    if got != {'_v_e': True, '_v_f': True, '_v_g': False}:
+        raise AnalysisError(f'C17.R11: memo idiom control failed ({got})')
+    if '_v_blocks' not in resets:
+        raise AnalysisError('C17.R11: cook() no longer assigns _v_blocks '
+                            '(anchor lost)')
+    return r
+
+
+RULES = [rule_memo_reset, rule_inplace_accumulators, rule_memo_immutable, rule_hidden_state, rule_recook, rule_getstate, rule_file,
          rule_caller_data, rule_defaults, rule_munge, rule_one_shot]
 EXPLANATION = (
     'Enumeration of attribute / item stores and container mutations in '
